@@ -401,6 +401,32 @@ for _dunder, _opn in (("__eq__", "eq"), ("__ne__", "ne"), ("__lt__", "lt"), ("__
     TM_REF["TypeMatcherInstance." + _dunder] = [("ok", "return self._op(operator.%s, other)" % _opn)]
 
 
+NONEOBJECT_GETATTR_REF = """
+if name.startswith("__"):
+    raise AttributeError(name)
+return self
+"""
+
+
+def sentinel_getattr(sel):
+    """NoneObject.__getattr__: absent -> False; `non-dunder name -> self` -> True; anything else is not expressible."""
+    tree = ast.parse(Path(sel.__file__).read_text())
+    cls = next((n for n in tree.body if isinstance(n, ast.ClassDef) and n.name == type(sel.NONE_OBJECT).__name__), None)
+    if cls is None:
+        raise Unsupported("class of NONE_OBJECT not found")
+    if len(type(sel.NONE_OBJECT).__mro__) != 2:
+        raise Unsupported("NoneObject has base classes")
+    meth = next((n for n in cls.body if isinstance(n, ast.FunctionDef) and n.name == "__getattr__"), None)
+    if any(isinstance(n, ast.FunctionDef) and n.name == "__getattribute__" for n in cls.body):
+        raise Unsupported("NoneObject.__getattribute__")
+    if meth is None:
+        return False
+    if normal_form_with_args(meth) != _ref_with_args(NONEOBJECT_GETATTR_REF, None, meth) or \
+            [a.arg for a in meth.args.args] != ["self", "name"]:
+        raise Unsupported("NoneObject.__getattr__ (line %d) has a shape the model does not transcribe" % meth.lineno)
+    return True
+
+
 def typematcher_shapes(sel):
     tree = ast.parse(Path(sel.__file__).read_text())
     classes = {n.name: n for n in tree.body if isinstance(n, ast.ClassDef)}
@@ -618,7 +644,9 @@ def gen_selsem():
     out += "Definition typematcher_recursion_keeps_attrs : bool := %s.\n" % cbool(tms["TypeMatcherInstance._op"] == "keeps_attrs")
     out += "(* TypeMatcher.__getattr__, TypeMatcherInstance.__init__/__getattr__/__iter__/_fields/_values/_subrecords and the\n"
     out += "   comparison dunders have exactly the shape transcribed in model/SelSem.v *)\n"
-    out += "Definition typematcher_shapes_ok : bool := true.\n\n"
+    out += "Definition typematcher_shapes_ok : bool := true.\n"
+    out += "(* NoneObject.__getattr__: a non-dunder attribute of the missing-field sentinel is the sentinel itself *)\n"
+    out += "Definition sentinel_attribute_is_sentinel : bool := %s.\n\n" % cbool(sentinel_getattr(sel))
     out += "(* self.data as `matches` builds it: name, kind of value *)\n"
     out += "Definition data_names : list (string * string) := %s.\n\n" % clist([cpair(cstr(n), cstr(k)) for n, k in data_names(sel)])
     out += "Definition function_whitelist_names : list string := %s.\n" % clist([cstr(f.__name__) for f in sel.FUNCTION_WHITELIST])
